@@ -177,3 +177,87 @@ for hname, (pcls, gate) in GATES.items():
     c.trace("no-effect-before-raise", t_no_effect_before_raise)
     c.trace("single-transaction", t_single_transaction)
     c.trace("access-controlled", make_access_predicate(['GET']))
+
+# ---------------------------------------------------------------- object-creating handlers (C03 owner, C07, C08, C09)
+AVAL = lambda k: ('obj', 'kmip.core.primitives.Base', {'value': k})      # noqa: E731
+ATTRS = ('sdict', ('bykey', {
+    'Cryptographic Algorithm': AVAL(('enum', 'kmip.core.enums.CryptographicAlgorithm')),
+    'Cryptographic Length': AVAL('nat'),
+    'Cryptographic Usage Mask': AVAL('nat'),
+    'Operation Policy Name': AVAL('str'),
+    'Name': 'opaque', 'Object Group': 'opaque', 'Sensitive': AVAL('bool'),
+}))
+
+c = contract(E + "_process_template_attribute").props('C13', 'C15')
+c.args(self=ENGINE, template_attribute='opaque')
+c.raises(('exceptions.ItemNotFound', 'exceptions.InvalidField', 'exceptions.IndexOutOfBounds'))
+c.returns(ATTRS)
+c.trust("template-attribute processing not yet under its own contract: returns the attribute "
+        "dictionary (name -> value object) or raises a KmipError")
+
+c = contract(E + "_set_attributes_on_managed_object").props('C13', 'C15')
+c.args(self=ENGINE, managed_object='opaque', attributes='opaque')
+c.raises(('exceptions.InvalidField',))
+c.trust("attribute setter loop not yet under its own contract: sets attributes on the (not yet stored) "
+        "object or raises InvalidField")
+
+
+def make_creator_predicates(n_objects):
+    def t_identifier_discipline(ev, outcome, exc, path, I):
+        """C07: each new object is added, then committed, and only then is its identifier read;
+        the identifier reported (and left in the ID placeholder) is that of an object just added."""
+        if outcome != 'return':
+            return True
+        adds = [e for e in ev if e[0] == 'db.add']
+        if len(adds) != n_objects:
+            return "%d objects added, expected %d" % (len(adds), n_objects)
+        commits = [i for i, e in enumerate(ev) if e[0] == 'db.commit']
+        if len(commits) != 1:
+            return "%d commits" % len(commits)
+        last_add = max(i for i, e in enumerate(ev) if e[0] == 'db.add')
+        if commits[0] < last_add:
+            return "an object is added after the commit (half of the result would not be stored)"
+        assigned = [e[2] for e in ev if e[0] == 'db.assign_uid']
+        eng = I.ghost_globals.get('__self__')
+        ph = eng.fields.get('_id_placeholder')
+        src = getattr(ph, 'fields', {}).get('__str_of__')
+        if src is None or not any(src.t.eq(a) for a in assigned):
+            return "the ID placeholder is not the identifier assigned to an object created by this request"
+        return True
+
+    def t_owner(ev, outcome, exc, path, I):
+        """C03: the owner of every new object is the requester, set before the commit."""
+        if outcome != 'return':
+            return True
+        eng = I.ghost_globals.get('__self__')
+        ident = eng.meta['initial_fields']['_client_identity']
+        commit = min([i for i, e in enumerate(ev) if e[0] == 'db.commit'] or [10 ** 9])
+        for e in ev:
+            if e[0] == 'db.add':
+                o = e[3]
+                if o.fields.get('_owner') is not ident[0]:
+                    return "a new object's owner is not the requesting identity"
+        for i, e in enumerate(ev):
+            if e[0] == 'db.mutate' and e[2] == '_owner' and i > commit:
+                return "owner assigned after the commit"
+        return True
+    return t_identifier_discipline, t_owner
+
+
+for hname, pcls, nobj in [("_process_create", PL + "create.CreateRequestPayload", 1),
+                          ("_process_create_key_pair", PL + "create_key_pair.CreateKeyPairRequestPayload", 2)]:
+    c = contract(E + hname).props('C03', 'C07', 'C08', 'C09')
+    # the decoder rejects a Create request without an object type (payload invariant)
+    extra = {'_object_type': ('obj', 'kmip.core.primitives.Base',
+                              {'value': ('enum', 'kmip.core.enums.ObjectType')})} \
+        if hname == "_process_create" else {}
+    c.args(self=ENGINE, payload=('payload', pcls, extra))
+    c.let('__self__', 'self')
+    c.raises(KMIP_ERRORS)
+    t_id, t_own = make_creator_predicates(nobj)
+    c.trace("identifier-read-after-commit", t_id)
+    c.trace("owner-is-the-requester", t_own)
+    c.trace("no-effect-before-raise", t_no_effect_before_raise)
+    c.trace("single-transaction", t_single_transaction)
+    c.modifies("self._id_placeholder")
+contract(E + "_process_create_key_pair").loop(0, "True", havoc={})
